@@ -863,6 +863,18 @@ class Timeseries:
                 el.set("date", self.__end_datetime.strftime("%Y-%m-%d"))
                 el.set("time", self.__end_datetime.strftime("%H:%M:%S"))
 
+                # Without a forecastDate the start date is the forecast date: add one
+                # when the start date has moved away from it.
+                if (
+                    header.find("pi:forecastDate", ns) is None
+                    and self.__forecast_datetime is not None
+                    and self.__forecast_datetime != self.__start_datetime
+                ):
+                    el = ET.Element("{%s}" % (ns["pi"],) + "forecastDate")
+                    el.set("date", self.__forecast_datetime.strftime("%Y-%m-%d"))
+                    el.set("time", self.__forecast_datetime.strftime("%H:%M:%S"))
+                    header.insert(list(header).index(header.find("pi:endDate", ns)) + 1, el)
+
                 variable = self.__data_config.variable(header)
 
                 miss_val = header.find("pi:missVal", ns).text
